@@ -4,6 +4,7 @@
 package workceptor
 
 import (
+	"bytes"
 	"context"
 	"encoding/json"
 	"fmt"
@@ -214,6 +215,23 @@ func (sfd *StatusFileData) saveToFile(file io.Writer) error {
 	return err
 }
 
+// saveAndTruncate replaces the content of an already-open status file, which must be positioned at its
+// start. The new record is written over the old one first and whatever is left of the old one is cut off
+// afterwards, so that a process killed in between never leaves an empty record behind (see loadFromFile).
+func (sfd *StatusFileData) saveAndTruncate(file *os.File) error {
+	err := sfd.saveToFile(file)
+	if err != nil {
+		return err
+	}
+	pos, err := file.Seek(0, io.SeekCurrent)
+	if err != nil {
+		return err
+	}
+	verifhook.Step("status.truncate", file.Name())
+
+	return file.Truncate(pos)
+}
+
 // Save saves status to a file.
 func (sfd *StatusFileData) Save(filename string) error {
 	verifhook.Step("save.lock", filename)
@@ -223,12 +241,12 @@ func (sfd *StatusFileData) Save(filename string) error {
 	}
 	defer sfd.unlockStatusFile(filename, lockFile)
 	verifhook.Step("save.open", filename)
-	file, err := os.OpenFile(filename, os.O_CREATE|os.O_WRONLY|os.O_TRUNC, 0o600)
+	file, err := os.OpenFile(filename, os.O_CREATE|os.O_WRONLY, 0o600)
 	if err != nil {
 		return err
 	}
 	verifhook.Step("save.write", filename)
-	err = sfd.saveToFile(file)
+	err = sfd.saveAndTruncate(file)
 	verifhook.Step("save.done", filename)
 	if err != nil {
 		serr := file.Close()
@@ -257,8 +275,16 @@ func (sfd *StatusFileData) loadFromFile(file io.Reader) error {
 	if err != nil {
 		return err
 	}
+	err = json.Unmarshal(jsonBytes, sfd)
+	if err != nil {
+		// A writer that was killed after writing a record shorter than the previous one, but before cutting
+		// off the rest, leaves a complete record followed by the tail of the old one. Accept the first value.
+		if derr := json.NewDecoder(bytes.NewReader(jsonBytes)).Decode(sfd); derr == nil {
+			return nil
+		}
+	}
 
-	return json.Unmarshal(jsonBytes, sfd)
+	return err
 }
 
 // Load loads status from a file.
@@ -334,13 +360,8 @@ func (sfd *StatusFileData) UpdateFullStatus(filename string, statusFunc func(*St
 	if err != nil {
 		return err
 	}
-	verifhook.Step("update.truncate", filename)
-	err = file.Truncate(0)
-	if err != nil {
-		return err
-	}
 	verifhook.Step("update.write", filename)
-	err = sfd.saveToFile(file)
+	err = sfd.saveAndTruncate(file)
 	verifhook.Step("update.done", filename)
 	if err != nil {
 		return err
